@@ -16,6 +16,13 @@ use std::io::Write;
 
 pub const ID: &str = "C12";
 
+/// The thread test shares parsed queries between threads.  Whether that is *allowed* is decided at
+/// compile time by the separate `sendsync` crate (an unsatisfied bound there is the C12 violation);
+/// the harness itself must keep building so that the other checks still give verdicts.
+struct Shared<T>(T);
+unsafe impl<T> Sync for Shared<T> {}
+unsafe impl<T> Send for Shared<T> {}
+
 /// canonical, comparable form of a result: Err text class or the list of (path, value text)
 pub fn result_of(v: &Value, q: &str) -> Value {
     match guarded(|| in_flight(q, v, || v.query_with_path(q))) {
@@ -157,6 +164,10 @@ fn gen_pool(src: &mut Src) -> (Vec<Value>, Vec<String>) {
     queries.push("$..[?@==2]".to_string());
     queries.push("$..*".to_string());
     queries.push("$..a".to_string());
+    queries.push("$..[?$.p]".to_string());
+    queries.push("$[?$.a && @]".to_string());
+    queries.push("$.*[?!$.b]".to_string());
+    queries.push("$..[?$.s[?@ == $.p] || @ == 1]".to_string());
     queries.push("$..[?@.b > 3].b".to_string());
     // queries the AST builder rejects after the grammar accepted them
     queries.push("$[?@.a == 9007199254740993]".to_string());
@@ -306,7 +317,7 @@ fn random_threads(src: &mut Src, obs: &mut Obs) -> Res {
     // sequential reference
     let seq: Vec<Vec<Value>> = docs.iter().map(|d| queries.iter().map(|q| result_of(d, q)).collect()).collect();
     obs.eval((docs.len() * queries.len()) as u64);
-    let parsed: Vec<Option<JpQuery>> = queries.iter().map(|q| guarded(|| parse_json_path(q)).ok().and_then(|r| r.ok())).collect();
+    let parsed: Shared<Vec<Option<JpQuery>>> = Shared(queries.iter().map(|q| guarded(|| parse_json_path(q)).ok().and_then(|r| r.ok())).collect());
     // per-thread plan drawn from the choice sequence: (doc, query, yield?) triples
     let plans: Vec<Vec<(usize, usize, bool)>> = (0..nthreads)
         .map(|t| {
@@ -324,18 +335,43 @@ fn random_threads(src: &mut Src, obs: &mut Obs) -> Res {
                 .collect()
         })
         .collect();
+    // a flat array wider than anything this process has seen so far: the threads are the first to
+    // touch its indices, all at once; the expected paths are known independently ($[0] .. $[n-1])
+    static WIDTH: std::sync::atomic::AtomicUsize = std::sync::atomic::AtomicUsize::new(40);
+    let width = WIDTH.fetch_add(24, std::sync::atomic::Ordering::Relaxed).min(6000);
+    let wide = Value::Array((0..width).map(|i| json!(i)).collect());
+    let wide_query = *src.pick(&["$[*]", "$[::1]", "$[?@ >= 0]", "$..[*]"]);
+    let expected_wide: Vec<String> = (0..width).map(|i| format!("$[{}]", i)).collect();
     let barrier = std::sync::Barrier::new(nthreads);
     let bad: std::sync::Mutex<Option<Value>> = std::sync::Mutex::new(None);
     std::thread::scope(|sc| {
         for plan in &plans {
             let (docs, queries, parsed, seq, barrier, bad) = (&docs, &queries, &parsed, &seq, &barrier, &bad);
+            let (wide, expected_wide) = (&wide, &expected_wide);
             sc.spawn(move || {
                 barrier.wait();
+                match guarded(|| wide.query_only_path(wide_query)) {
+                    Ok(Ok(p)) if p == *expected_wide => {}
+                    other => {
+                        let mut b = bad.lock().unwrap();
+                        if b.is_none() {
+                            let got = match other {
+                                Ok(Ok(p)) => json!(p.iter().zip(expected_wide.iter()).enumerate().find(|(_, (a, b))| a != b).map(|(i, (a, b))| json!({"position": i, "reported": a, "expected": b}))),
+                                Ok(Err(e)) => json!(e.to_string()),
+                                Err(p) => json!(p),
+                            };
+                            *b = Some(json!({"query": wide_query, "doc": format!("[0, 1, ... {}]", expected_wide.len() - 1), "first_difference": got,
+                                             "note": "evaluated by all threads at once as the first use of these indices in the process"}));
+                        }
+                        return;
+                    }
+                }
                 for (d, q, y) in plan {
                     if *y {
                         std::thread::yield_now();
                     }
-                    let got = match &parsed[*q] {
+                    let parsed: &Shared<Vec<Option<JpQuery>>> = parsed;
+                    let got = match &parsed.0[*q] {
                         Some(ast) => match guarded(|| js_path_process(ast, &docs[*d])) {
                             Ok(Ok(r)) => json!(r.into_iter().map(|x| json!([x.clone().path(), x.val().to_string()])).collect::<Vec<_>>()),
                             Ok(Err(_)) => json!("Err"),
